@@ -284,16 +284,19 @@ fn phases_bc(env: &Env, rec: &mut Rec) {
     // Phase E ("regimes"): single-threaded processes that run long homogeneous workloads (all ASCII, ASCII with
     // spaces, Latin-1, CJK, right-to-left, errors only, long ASCII - in a seeded order), each followed by the
     // whole case list: behaviour that changes after N calls of a kind (adaptive fast paths, counters) shows here
-    let ne = env.n(2, 24);
+    // The first 7 (quick) / 21 (thorough) processes see one regime each, so that a statistic accumulated over the
+    // process is not diluted by the other regimes; the others run all seven in a seeded order.
+    let single = if env.quick() { 7 } else { 21 };
+    let ne = single + env.n(2, 24);
     for k in 0..ne {
         let seed = env.seed.wrapping_mul(313).wrapping_add(k as u64);
-        let out = Command::new(&racer)
-            .args(["regime", "--cases"])
-            .arg(&cf)
-            .arg("--expect")
-            .arg(&bf)
-            .args(["--seed", &seed.to_string(), "--per-regime", if k % 2 == 0 { "3000" } else { "20000" }])
-            .output();
+        let per = if k < single { ["20000", "100000", "500000"][k / 7] } else if k % 2 == 0 { "3000" } else { "20000" };
+        let mut cmd = Command::new(&racer);
+        cmd.args(["regime", "--cases"]).arg(&cf).arg("--expect").arg(&bf).args(["--seed", &seed.to_string(), "--per-regime", per]);
+        if k < single {
+            cmd.args(["--only", &(k % 7).to_string()]);
+        }
+        let out = cmd.output();
         if let Ok(o) = out {
             let text = String::from_utf8_lossy(&o.stdout).to_string();
             for l in text.lines() {
